@@ -170,6 +170,16 @@ theorem mkdirAll_confined {dest : Path} {fs fs1 : FS} {name : List String}
   · exact hc.2 d hd
   · exact dirChain_target_inside hin hd
 
+/-- the file system after the `EnsureDirExists` step (untouched when the directory part is a regular
+file, `mkdirAll` otherwise) is still confined -/
+theorem made_confined {dest : Path} {fs fs1 : FS} {name : List String}
+    (hin : inside dest (target dest name) = true) (hc : Confined dest fs)
+    (hmk : (if fs.isFile (target dest name.dropLast) = true then some fs
+      else fs.mkdirAll dest (target dest name.dropLast)) = some fs1) : Confined dest fs1 := by
+  split at hmk
+  · cases hmk; exact hc
+  · exact mkdirAll_confined hin hc hmk
+
 theorem unzipOne_confined {dest : Path} {fs : FS} (e : Entry) (hc : Confined dest fs) :
     Confined dest (unzipOne dest fs e).1 := by
   unfold unzipOne
@@ -183,16 +193,18 @@ theorem unzipOne_confined {dest : Path} {fs : FS} (e : Entry) (hc : Confined des
       split
       · exact hc
       · rename_i fs1 hmk
-        have hc1 : Confined dest fs1 := mkdirAll_confined hin' hc hmk
+        have hc1 : Confined dest fs1 := made_confined hin' hc hmk
         split
         · exact hc1
         · rename_i hne
-          refine ⟨?_, hc1.2⟩
-          intro f hf'
-          simp only [List.mem_append, List.mem_filter, List.mem_singleton] at hf'
-          rcases hf' with ⟨hf', -⟩ | rfl
-          · exact hc1.1 f hf'
-          · exact ⟨hin', fun heq => hne (Or.inl heq)⟩
+          split
+          · exact hc1
+          · refine ⟨?_, hc1.2⟩
+            intro f hf'
+            simp only [List.mem_append, List.mem_filter, List.mem_singleton] at hf'
+            rcases hf' with ⟨hf', -⟩ | rfl
+            · exact hc1.1 f hf'
+            · exact ⟨hin', fun heq => hne (Or.inl heq)⟩
 
 theorem unzip_confined (dest : Path) (es : List Entry) :
     ∀ fs, Confined dest fs → Confined dest (unzip dest fs es).1 := by
@@ -259,6 +271,7 @@ theorem unzipOne_eq_ok {dest r : Path} {fs : FS} {e : Entry} (hd : e.isDirEntry 
     (ht : target dest e.name = dest ++ r) (hdt : target dest e.name.dropLast = (dest ++ r).dropLast)
     (hr : r ≠ [])
     (hchain : (dirChain dest (dest ++ r).dropLast).any fs.isFile = false)
+    (hpar : fs.isFile (dest ++ r).dropLast = false)
     (hdir : dest ++ r ∉ fs.dirs) (hfile : ∀ p ∈ fs.files, p.1 ≠ dest ++ r) :
     unzipOne dest fs e = (FS.mk (fs.files ++ [(dest ++ r, e.content)])
       (fs.dirs ++ (dirChain dest (dest ++ r).dropLast).filter (fun x => !fs.dirs.contains x)), none) := by
@@ -272,9 +285,8 @@ theorem unzipOne_eq_ok {dest r : Path} {fs : FS} {e : Entry} (hd : e.isDirEntry 
   have hfilt : fs.files.filter (·.1 != dest ++ r) = fs.files :=
     List.filter_eq_self.2 (fun p hp => by simpa using hfile p hp)
   unfold unzipOne
-  simp only [hd, ht, hdt, inside_append, mkdirAll_eq_some hchain, FS.isDir, List.contains_iff_mem,
-    List.mem_append, List.mem_filter, hdir, hnc, hne, hfilt]
-  simp
+  simp only [hd, ht, hdt, hpar, inside_append, mkdirAll_eq_some hchain, FS.isDir]
+  simp [hdir, hnc, hne, hfilt]
 
 theorem unzipOne_roundtrip {dest : Path} (hdest : ∀ s ∈ dest, validSeg s = true)
     {done todo : List TFile} {f : TFile} {fs : FS} (hw : TreeWF (done ++ f :: todo))
@@ -310,6 +322,23 @@ theorem unzipOne_roundtrip {dest : Path} (hdest : ∀ s ∈ dest, validSeg s = t
       apply h3 g (hdmem g hg) f hfmem hneq
       rw [List.isPrefixOf_iff_prefix, hge]
       exact List.take_prefix _ _
+  -- the directory part of the target is not an already written regular file (so `EnsureDirExists`
+  -- really goes through MkdirAll and `os.Create` finds a directory)
+  have hpar : fs.isFile (dest ++ f.rel).dropLast = false := by
+    cases hb : fs.isFile (dest ++ f.rel).dropLast with
+    | false => rfl
+    | true =>
+      exfalso
+      unfold FS.isFile at hb
+      obtain ⟨p, hp, hpe⟩ := List.any_eq_true.1 hb
+      rw [hfiles] at hp
+      obtain ⟨g, hg, rfl⟩ := List.mem_map.1 hp
+      rw [List.dropLast_append_of_ne_nil hne] at hpe
+      have hge : g.rel = f.rel.dropLast :=
+        List.append_cancel_left (as := dest) (by simpa using hpe)
+      apply h3 g (hdmem g hg) f hfmem (hdistinct g hg)
+      rw [List.isPrefixOf_iff_prefix, hge]
+      exact List.dropLast_prefix _
   -- the target is not an existing directory
   have hdir : dest ++ f.rel ∉ fs.dirs := by
     intro hmem
@@ -325,7 +354,7 @@ theorem unzipOne_roundtrip {dest : Path} (hdest : ∀ s ∈ dest, validSeg s = t
     obtain ⟨g, hg, rfl⟩ := List.mem_map.1 hp
     exact hdistinct g hg (List.append_cancel_left heq)
   refine ⟨_, unzipOne_eq_ok (isDirEntry_toEntry hne hv) (target_entryName dest hdest f.rel hv)
-    (target_entryName_dropLast dest hdest f.rel hne hv) hne hchain hdir hfile, ?_, ?_⟩
+    (target_entryName_dropLast dest hdest f.rel hne hv) hne hchain hpar hdir hfile, ?_, ?_⟩
   · simp [hfiles, toEntry]
   · intro d hd
     simp only [List.mem_append, List.mem_filter] at hd
@@ -360,5 +389,15 @@ theorem unzip_zipFolder {dest : Path} (hdest : ∀ s ∈ dest, validSeg s = true
   have := unzip_roundtrip_aux hdest (selected tree keep recursive) [] FS.empty hsel rfl
     (by simp [FS.empty])
   simpa [zipFolder_eq] using this
+
+/-! ### the directory part of the target is an existing regular file (`os.Open` succeeds on it) -/
+
+/-- entry "x/." where "x" is a regular file: nothing is created and the file is overwritten -/
+example : unzipOne ["d"] { files := [(["d", "x"], "old")], dirs := [] } { name := ["x", "."], content := "new" } =
+    ({ files := [(["d", "x"], "new")], dirs := [] }, none) := by decide
+
+/-- entry "x/y" where "x" is a regular file: `os.Create` fails, nothing is created -/
+example : unzipOne ["d"] { files := [(["d", "x"], "old")], dirs := [] } { name := ["x", "y"], content := "new" } =
+    ({ files := [(["d", "x"], "old")], dirs := [] }, some .ioError) := by decide
 
 end Zip
